@@ -29,7 +29,7 @@ def run(tier, seed):
     for k in range(4 if q else 16):
         jobs.append(Job("c02", "optim", "spqlios-fma", {"mode": "rc", "keys": 1, "keybase": kb + k, "maxops": 160 if q else 5000, "minsize": 250 if q else 1000,
                                                         "family": 1, "lambda": 128 if k % 2 == 0 else 80},
-                        rc_params=core.rc_params(core.splitmix(seed, 400 + k), 5 if q else 12), label="deep chains %d" % k))
+                        rc_params=core.rc_params(core.splitmix(seed, 400 + k), 5 if q else 6), label="deep chains %d" % k))
     for i, be in enumerate(build.BACKENDS[1:]):
         slow = be.startswith("nayuki")
         jobs.append(Job("c02", "optim", be, {"mode": "rc", "keys": 1, "keybase": kb + 50 + i, "maxops": 60},
